@@ -124,6 +124,9 @@ package revision
 //@   assert [C16:update-keeps-the-role] $control == control && cd.Exists && $cur == cd.Current && $des == cd.Desired
 //@   assert [C16:real-update-is-not-dry-run] len($opts) == 0
 
+// the package's owner reference on a revision: the first owner reference named by the revision's
+// parent-package label
+//@ macro PKGOWNER(rev, p) = rev.GetOwnerReferences()[p].Name == rev.GetLabels()[v1.LabelParentPackage] && forall q :: 0 <= q && q < p ==> rev.GetOwnerReferences()[q].Name != rev.GetLabels()[v1.LabelParentPackage]
 //@ func (*revision.APIEstablisher).update
 //@ props C16 C02
 // the only objects written are the two it is given (in particular no owner reference of the
@@ -137,6 +140,18 @@ package revision
 //@   assert [C16,C02:inactive-revision-writes-the-existing-object] !control ==> ($o == current && !controllerAdded)
 //@   assert [C16,C02:active-revision-writes-the-controlled-desired-object] control ==> ($o == desired && controllerAdded && desired.GetResourceVersion() == current.GetResourceVersion())
 //@   assert [C16:dry-run-option-forwarded] $uo == opts
+//@   assert [C16:established-object-keeps-the-package-as-an-owner] forall p :: (0 <= p && p < len(parent.GetOwnerReferences()) && PKGOWNER(parent, p)) ==>
+//@        exists i :: 0 <= i && i < len($o.GetOwnerReferences()) && $o.GetOwnerReferences()[i].UID == parent.GetOwnerReferences()[p].UID
+
+// The package's owner reference on a revision: the owner reference whose name is the revision's
+// parent-package label.
+//@ func revision.GetPackageOwnerReference
+//@ props C16
+//@ frame fresh-only
+//@ loop range rev.GetOwnerReferences()
+//@   invariant [C16:no-owner-with-the-package-name-so-far] forall j :: 0 <= j && j < done ==> ranged[j].Name != rev.GetLabels()[v1.LabelParentPackage]
+//@ ensures [C16:package-owner-is-the-first-owner-named-by-the-parent-label] result1 ==> exists j :: 0 <= j && j < len(rev.GetOwnerReferences()) && PKGOWNER(rev, j) && rev.GetOwnerReferences()[j].UID == result.UID && rev.GetOwnerReferences()[j].Name == result.Name
+//@ ensures [C16:no-package-owner-only-if-no-owner-has-the-package-name] !result1 ==> forall j :: 0 <= j && j < len(rev.GetOwnerReferences()) ==> rev.GetOwnerReferences()[j].Name != rev.GetLabels()[v1.LabelParentPackage]
 
 //@ func (*revision.APIEstablisher).create
 //@ props C16
